@@ -382,6 +382,13 @@ func (op *ShellOperator) conversionEventHandler(crdName string, request *v1.Conv
 				return nil, fmt.Errorf("hook task prop error")
 			}
 
+			// The hook refuses to convert: stop the chain and report the hook's own message.
+			if response.FailedMessage != "" {
+				return &conversion.Response{
+					FailedMessage: response.FailedMessage,
+				}, nil
+			}
+
 			// Set response objects as new objects for a next round.
 			request.Objects = response.ConvertedObjects
 
